@@ -4,6 +4,7 @@ import PncModel
 def step (line : String) : String :=
   match line.trimAscii.toString.splitOn " " with
   | "c20" :: args => Arl.run args
+  | "c17" :: args => Interp.run args
   | _ => "err bad-stream"
 
 partial def loop (h : IO.FS.Stream) : IO Unit := do
